@@ -191,3 +191,33 @@ void h_parseFloatingFast(void) {
 void h_ParseFloatingNormalFast(void) { uint64_t r, m; int e, s; (void)ParseFloatingNormalFast_real(&r, e, m, s); CANARY(); }
 void h_AtofEiselLemire64(void) { uint64_t m; int e, s; double d; (void)AtofEiselLemire64(m, e, s, &d); CANARY(); }
 #endif
+
+#ifdef UNIT_ShouldRoundup
+/* ---- ShouldRoundup (big-decimal fallback): the round-half-to-even decision, for every digit string and position ----
+ * spec (IEEE 754 roundTiesToEven applied to the decimal d[0..nd_total) with the point after position nd): compare the discarded
+ * part with one half; "trunc" says that further non-zero digits were dropped when the Decimal was filled; the stored digits are
+ * trimmed (the last stored digit is non-zero — representation invariant of Decimal, established by its constructor). */
+#include "gen/DECIMAL_MAX_DNUM.inc"
+#include "gen/Decimal.inc"
+#include "gen/ShouldRoundup.inc"
+int in_nd, in_pos;
+void h_ShouldRoundup(void) {
+  Decimal *d = malloc(sizeof(Decimal)); __CPROVER_assume(d != NULL);
+  int nd; __CPROVER_assume(d->nd >= 0 && d->nd <= DECIMAL_MAX_DNUM && (d->trunc == 0 || d->trunc == 1)); in_nd = d->nd; in_pos = nd;
+  __CPROVER_assume(nd >= -2 && nd <= DECIMAL_MAX_DNUM + 2);
+  if (d->nd > 0) __CPROVER_assume(d->d[d->nd - 1] >= '1' && d->d[d->nd - 1] <= '9');      /* trimmed */
+  if (nd >= 0 && nd < d->nd) __CPROVER_assume(d->d[nd] >= '0' && d->d[nd] <= '9');
+  if (nd >= 1 && nd <= d->nd) __CPROVER_assume(d->d[nd - 1] >= '0' && d->d[nd - 1] <= '9');
+  int want;
+  if (nd < 0 || nd >= d->nd) want = 0;                      /* nothing (stored) is discarded: the code's convention is "no" */
+  else {
+    char first = d->d[nd];
+    int cmp = first > '5' ? 1 : first < '5' ? -1 : ((nd + 1 < d->nd || d->trunc) ? 1 : 0);      /* discarded part vs one half */
+    _Bool prev_odd = nd > 0 && ((d->d[nd - 1] - '0') & 1);
+    want = cmp > 0 || (cmp == 0 && prev_odd);
+  }
+  int r = ShouldRoundup(d, nd);
+  VASSERT((r != 0) == (want != 0), "C04.roundup.halfeven: round up exactly when the discarded digits exceed one half, or equal one half (nothing truncated) and the kept part is odd");
+  CANARY();
+}
+#endif
